@@ -36,9 +36,13 @@ def stream_real(tier, seed):
                 samples.append(r)
         except Exception as e:         # re-solving / evaluating a well-posed model must not raise
             problems.append(dict(kind="real-model-raised", model=m, error="%s: %s" % (type(e).__name__, str(e)[:200])))
+    try:
+        samples.append(S.check_resolve_linop(problems, stats))
+    except Exception as e:
+        problems.append(dict(kind="real-model-raised", model="linop", error="%s: %s" % (type(e).__name__, str(e)[:200])))
     for pr in problems:
         pr["generator"] = "real"
-    return dict(name="scs-resolves", evaluations=6 * n, distinct_nontrivial=n,
+    return dict(name="scs-resolves", evaluations=6 * n + 3, distinct_nontrivial=n + 1,
                 rule="per model 6 SCS solves: twice unchanged (same value 1e-3, same counts sent), after one more iteration + "
                      "metric (new leaf expressions between solves) and after replacing the "
                      "initial condition radius 1 -> 4 (value = value of the newly built radius-4 model, 1e-3), and that "
@@ -60,9 +64,9 @@ def search(tier, seed):
     if found:
         return found
     problems, stats = [], {}
-    for idx in range(6):
+    for idx in ["linop"] + list(range(6)):
         try:
-            S.check_resolve(idx, problems, stats, None)
+            S.check_resolve_linop(problems, stats) if idx == "linop" else S.check_resolve(idx, problems, stats, None)
         except Exception as e:
             problems.append(dict(kind="real-model-raised", model=idx, error="%s: %s" % (type(e).__name__, str(e)[:200])))
         if problems:
@@ -125,7 +129,10 @@ def replay(payload):
     if payload.get("generator") == "real":
         problems, stats = [], {}
         try:
-            S.check_resolve(payload["model"], problems, stats, None)
+            if payload["model"] == "linop":
+                S.check_resolve_linop(problems, stats)
+            else:
+                S.check_resolve(payload["model"], problems, stats, None)
         except Exception:
             return True
         return bool(problems)
